@@ -37,6 +37,18 @@ SEEDS = {
     'C15d': ('C15', ['C15'], "end anchor moved from the RE_* strings into the compiled listing patterns: the watcher's full-path patterns lose it", 'a path with extra characters after .h5'),
     'C17d': ('C17', ['C17'], 'mirror decides "destination is current" by size and mtime instead of content', 'pre-existing destination file of the same size, not older, different content'),
     'C18d': ('C18', ['C18'], 'cp/mv/ln forward include_drf_properties as include_dmd_properties to the listing', 'one of the properties flags given and a metadata channel in the tree'),
+    'C01e': ('C01', ['C01', 'C08'], '_read: stop row of a read ending inside a block drops the block base row', 'file with >= 2 index rows; a read ending strictly inside a later block'),
+    'C04e': ('C04', ['C04'], 'file millisecond computed with a double division (picosecond / 1e9): rounds instead of truncating', 'a write beginning within ~122 ns before a file boundary (rates above ~8 MHz)'),
+    'C05e': ('C05', ['C05', 'C19'], 'rf_write treats next_sample=0 as "not given" (truthiness instead of `is None`)', 'explicit next_sample == 0 while the cursor is above 0'),
+    'C06e': ('C06', ['C06'], 'per-file sample_rate_numerator attribute created as 32-bit unsigned', 'sample_rate_numerator >= 2**32'),
+    'C08e': ('C08', ['C08'], 'read_vector_raw accepts a single block that starts after the requested start (only the tail is checked)', 'request starting in a gap / before the first sample and ending inside the next block'),
+    'C09e': ('C09', ['C09', 'C08'], '_get_bounds pre-checks os.access instead of tolerating a failing open', 'first / last listed file vanishes or cannot be opened between listing and opening'),
+    'C10e': ('C10', ['C10'], 'status of the data H5Dwrite overwritten by the status of the index write', 'failing data write on a pass that also writes index rows, index write succeeds'),
+    'C12e': ('C12', ['C12', 'C13'], 'metadata reader candidate files: the file before the start file is included; the start file is then read unfiltered', 'multi-file range read whose start file holds a sample below the start'),
+    'C14e': ('C14', ['C14'], 'ilsdrf replaces the tzinfo of aware datetimes instead of converting', 'starttime / endtime given as aware datetimes with a non-zero UTC offset'),
+    'C15e': ('C15', ['C15'], 'moved events: the time window is tested on the source name when both names match', 'rename between two matching names on opposite sides of the window'),
+    'C16e': ('C16', ['C16'], 'duration expirer returns early for single-file groups and skips the next expirer in the chain (size limit)', 'size + duration limits; a new file that is alone in its group pushes the total over the size limit'),
+    'C19e': ('C19', ['C19'], 'digital_rf_get_last_file_written strips the first "tmp." found anywhere in the path', 'channel directory path containing "tmp."'),
     'C02': ('C02', ['C02', 'C09'], 'existence check of the finished name skipped when the subdirectory was "just created" (in effect always)',
             'a second session writing into a period whose finalized file exists'),
     'C02b': ('C02', ['C02'], 'a failed exclusive create on an existing tmp name no longer marks the writer failed: close publishes the stale tmp file',
